@@ -197,14 +197,11 @@ theorem frag_additional (kvs : Obj) (hf : fragKws kvs kvs = true) (v : Json) (hm
     (∃ b, v = .bool b) ∨ ((∃ o, v = .obj o) ∧ inFragment v = true) := by
   have hfe := fragKws_mem kvs kvs hf _ _ hm
   simp only [fragEntry, Bool.and_eq_true] at hfe
-  have h2 := hfe.2
-  simp [fragSimple] at h2
-  rcases h2 with h3 | h3
-  · cases v <;> simp at h3
-    exact Or.inl ⟨_, rfl⟩
-  · cases v with
-    | obj o => exact Or.inr ⟨⟨o, rfl⟩, h3⟩
-    | _ => simp [inFragment] at h3
+  have h3 : inFragment v = true := by simpa using hfe.2
+  cases v with
+  | obj o => exact Or.inr ⟨⟨o, rfl⟩, h3⟩
+  | bool b => exact Or.inl ⟨b, rfl⟩
+  | _ => simp [inFragment] at h3
 
 /-- no `patternProperties` in the fragment: a member is declared iff `properties` names it -/
 theorem isDeclared_of (C : Ctx) (kvs : Obj) (ps : List (String × Json)) (h : lookup "properties" kvs = some (.obj ps))
